@@ -396,8 +396,8 @@ def check_blocking_waits(ctx):
                        f"`{norm(c)}` blocks without bound on the thread that also serves the send queue and is joined by stop(); its only waker is ByteQueue.{'/'.join(notifiers)} "
                        "(peer bytes) - when the peer closes inside a frame, the Separate.req queued by _on_disconnecting is never sent, BlockSendInfo.wait() never returns and the close sequence never finishes",
                        key=norm(n.ast), where=f.where, notifiers=notifiers, stop_path_calls=sorted(stop_calls))
-        ctx.floor("ByteQueue waits in the HSMS framing loop", n_sites, 2)
-    check_bytequeue_wait(ctx, "C09.W1")
+        if n_sites == 0:
+            ctx.ob("C09.W1", q, True, "the framing loop contains no blocking ByteQueue wait", key="no-blocking-wait", where=f.where)
 
 
 def check_bytequeue_wait(ctx, rule):
@@ -464,4 +464,4 @@ def run(ctx):
     check_spin_handshakes(ctx)
     check_idle(ctx)
     check_definite_assignment(ctx)
-    check_dispatcher(ctx, "C09.W3", wakeups=True, consumers=False)
+    check_dispatcher(ctx, "C09.W3", wakeups=True, consumers=False, threads=("receiver",))
